@@ -320,6 +320,10 @@ func (l *c06Probe) probe() *hermes.VerifProbe {
 				if i+1 == l.capLay && l.capIdx >= 0 {
 					hi += g.CAPS[l.capIdx]
 				}
+				// (field capacity never exceeds the pore volume - C15 -, so the pore volume bounds the water content as well)
+				if phi := g.PORGES[i]; phi > 0 && wg > phi+(hi-g.W[i])+1e-12 {
+					l.c.Violate("above-pore-volume", fmt.Sprintf("%s day %d layer %d/%d: water content %.12g above the pore volume %.12g (field capacity %.12g; groundwater %.4g)", l.label, zeit, i+1, N, wg, phi, g.W[i], g.GRW), nil)
+				}
 				if wg > hi+1e-12 {
 					l.c.Violate("above-field-capacity", fmt.Sprintf("%s day %d layer %d/%d: water content %.12g above field capacity %.12g (+capillary increment; groundwater %.4g)", l.label, zeit, i+1, N, wg, hi, g.GRW), nil)
 				}
